@@ -305,6 +305,8 @@ def rr_designs():
     D["rr_two_components"] = {"items": [M("A", iw=0), M("B", iw=0), T("T0", [call("A")]), T("T1", [call("A")]), T("T2", [call("B")]), T("T3", [call("B")]), T("T4", [wit("comb")])]}
     D["rr_chain"] = {"items": [M("A", iw=0), M("B", iw=0), T("T0", [call("A")]), T("T1", [call("A"), call("B")]), T("T2", [call("B")])]}
     D["rr_explicit"] = {"items": [M("A", iw=0), T("T0"), T("T1", [call("A")]), T("T2", [If([call("A")])]), T("T3")], "relations": [["conflict", "T0", "T1", "L"], ["conflict", "T3", "T0", "U"]]}
+    # several conflict-free transactions (each is a component of its own) next to a real component
+    D["rr_singletons"] = {"items": [M("A", iw=0), M("B", iw=0), T("T0", [call("A")]), T("T1", [call("A", en=True)]), T("T2", [wit("comb")]), T("T3", [wit("comb")]), T("T4", [call("B")])]}
     D["rr_validators"] = {"items": [M("V", validate=True), T("T0", [call("V")]), T("T1", [call("V", en=True)]), T("T2", [If([call("V")])])]}
     return D
 
